@@ -21,11 +21,11 @@ PROP = "C02"
 LEVEL = "proof"
 GEN_UNITS = ["GenUtils", "GenUtils2", "GenUtils3", "GenKernels", "GenKernels3", "GenMethods3"]   # Props/C02.v states C02_dimscheck_align / C02_ttv_dense_req / C02_ttm_dense_req over the generated tt_dimscheck,
                                         # C02_ttt_dense_req / C02_to_tenmat_req_* over the generated gather_wrap_dims
-COQ_TARGETS = ["Props/C02.vo", "Props/C02w4.vo", "Props/C02w4b.vo", "Props/C02w5.vo", "Props/C02w5b.vo", "Model/C02Harness.vo", "Model/C02HarnessW4.vo", "Model/C02HarnessW5.vo", "Model/Harness.vo", "Props/W3C02.vo", "Props/W3C02b.vo", "Props/W3Methods3.vo"]
-THEOREM_FILES = ["Props/C02.v", "Props/C02w4.v", "Props/C02w4b.v", "Props/C02w5.v", "Props/C02w5b.v", "Props/W3C02.v", "Props/W3C02b.v", "Props/W3Methods3.v"]
+COQ_TARGETS = ["Props/C02.vo", "Props/C02w4.vo", "Props/C02w4b.vo", "Props/C02w5.vo", "Props/C02w5b.vo", "Props/C02w5c.vo", "Props/C02w5d.vo", "Props/C02w5e.vo", "Model/C02Harness.vo", "Model/C02HarnessW4.vo", "Model/C02HarnessW5.vo", "Model/Harness.vo", "Props/W3C02.vo", "Props/W3C02b.vo", "Props/W3Methods3.vo"]
+THEOREM_FILES = ["Props/C02.v", "Props/C02w4.v", "Props/C02w4b.v", "Props/C02w5.v", "Props/C02w5b.v", "Props/C02w5c.v", "Props/C02w5d.v", "Props/C02w5e.v", "Props/W3C02.v", "Props/W3C02b.v", "Props/W3Methods3.v"]
 COQ_IMPORTS = ("From Coq Require Import List ZArith Bool Arith QArith Qcanon.\n"
                "From PV Require Import Base.Index Base.Perm Base.Sum Np.Array Model.Sparse Model.Repr Model.Harness "
-               "Np.NpZ Np.NpZ2 Gen.GenUtils Gen.GenUtils2 Model.C02TenmatReq Model.C02DimsReq Model.C02Spec Model.C02Dense Model.C02Sparse Model.C02Modes Model.C02Kruskal Model.C02SpKernels Model.C02Absorb Model.C02Tenmat Model.C02SpMore Model.C02KruskalMore Model.C02Tucker Model.C02TuckerFull Model.C02Harness Model.C02HarnessW4 Model.C02SpReq Model.C02SumParts Model.C02HarnessW5.\n")
+               "Np.NpZ Np.NpZ2 Gen.GenUtils Gen.GenUtils2 Model.C02TenmatReq Model.C02DimsReq Model.C02Spec Model.C02Dense Model.C02Sparse Model.C02Modes Model.C02Kruskal Model.C02SpKernels Model.C02Absorb Model.C02Tenmat Model.C02SpMore Model.C02KruskalMore Model.C02Tucker Model.C02TuckerFull Model.C02Harness Model.C02HarnessW4 Model.C02SpReq Model.C02SumParts Model.C02Reconstruct Model.C02Switch Model.C02MttkrpGen Model.C02Layout Model.C02HarnessW5.\n")
 RULE = ("mttkrp/mttkrps additionally on 4-, 5- and 6-way tensors (<= ~200 entries) with skewed and balanced shapes so that every "
         "split index of min_split and Khatri-Rao products of >= 2 matrices occur in each helper; dims orders include cyclic "
         "(non-involutive) ones; otherwise shapes with <= 4 modes / <= 72 entries incl. distinct sizes (2,3,4), singleton modes and 1-way; every non-empty mode "
@@ -38,6 +38,13 @@ RULE = ("mttkrp/mttkrps additionally on 4-, 5- and 6-way tensors (<= ~200 entrie
         "dense operands ENLARGED by assignment (C-ordered data) in every dense kernel and on both sides of innerprod / ttt / mask, Tucker cores grown and kept "
         "by reference; very sparse long-mode operands whose stored entries collide in the result (vector-valued ttv named five ways, mttkrp of every mode, "
         "collapse, ttm); masks without any nonzero (sparse from empty arrays / shape only, dense all-zero) for Kruskal / dense / sparse holders. "
+        "Wave 5: ttt FULL and partial contractions of equally shaped operands with REPEATED mode sizes (3x3, 2x2x2, 2x3x2; thorough 3x3x3, 2x2x3) under "
+        "EVERY pairing selfdims[k] <-> otherdims[k] (different permutations on the two sides), exhaustively; reconstruct with a mode named twice, an empty "
+        "sample, repeated rows; a REJECTION stream (contract with negative / out-of-range / equal / unequally sized modes on dense and sparse holders, "
+        "sptensor.scale with an ill-shaped tensor / sptensor factor on receivers with and without stored entries and an ill-sized ndarray factor, "
+        "collapse / scale with negative / out-of-range / repeated mode lists; mttkrp of every holder class with a non-skipped factor of wrong row count "
+        "or different column count, a short / long factor list, a mode outside [0, N), a Kruskal operand of another shape): pyttb must raise and the "
+        "request-level model must say Err; mttkrp with an ARBITRARY skipped factor (wrong rows / columns: never looked at) as an ordinary request. "
         "non-trivial = more than one cell and a nonzero entry; distinct = distinct (op, arguments)")
 EXPLANATION = ("Correspondence compares pyttb's raw result with spec_op applied to the denotation of the operand literal "
                "(exact integers in Z; the norm in Qc) and, for every kernel with an algorithm model, with impl_op as well. Theorems in "
@@ -47,18 +54,26 @@ EXPLANATION = ("Correspondence compares pyttb's raw result with spec_op applied 
                "ttm, collapse, contract, scale, mask and mttkrp, Kruskal ttv (any mode set) and mttkrp, Tucker ttm / ttv / mttkrp, linearity over sums. "
                "Props/C02w4.v / C02w4b.v (wave 4): mttkrp AS CALLED with a Kruskal operand over the GENERATED get_mttkrp_factors for all four holders, ttv AS CALLED "
                "for sparse / Kruskal / Tucker holders and ttm AS CALLED for sparse / Tucker holders over the GENERATED tt_dimscheck in the caller's order, ttsv, Tucker x sparse innerprod, collapse in the "
-               "caller's order, mttkrps (C12's byte-level algorithm) in C02's terms.")
+               "caller's order, mttkrps (C12's byte-level algorithm) in C02's terms. "
+               "Props/C02w5.v / C02w5b.v / C02w5c.v (wave 5): sptensor.collapse / scale / contract and tensor.contract AS CALLED (argument checks in front of "
+               "the kernels: GENERATED tt_dimscheck, the factor's shape test before the 'nothing stored' return, range / size / distinctness tests) with "
+               "acceptance and rejection theorems; sumtensor.innerprod / mttkrp / ttv executed PART BY PART with every part's own algorithm model; "
+               "ktensor.innerprod(tensor | sptensor | ttensor) as the component loop over the operand's own ttv; ttensor.reconstruct as called (row "
+               "selection in the model); the 50% container switch of sptensor.ttv / contract as a function of the denoted array; dense mttkrp over the GENERATED "
+               "pyttb.khatrirao (Props/C02w5d.v). A case flagged 'rej' "
+               "passes iff pyttb raised and the request-level model returns Err.")
 CORRESPONDENCE_ONLY = [
-    "sumtensor operations as executed part by part (linearity of the defining sums is proved: C02_sum_linear_*); reconstruct with samples (= the proved full() "
-    "of the row-sampled factors; the row selection itself is done by the harness)",
-    "the choice of the result container (scalar / ndarray / tensor / sptensor and the 50% switch of sptensor.ttv / contract: evaluated in Coq on the expected "
-    "array, no theorem; both sides denote the same array: C02_sparse_switch); sptensor.collapse with a reducer other than sum",
-    "Kruskal mask: proved by C08 (Props/C08b.v C08_mask: ktensor.mask's accumulation loop = the denoted array at every listed subscript), not duplicated here; "
-    "Kruskal innerprod with a dense / sparse / Tucker operand is proved at the level of the arrays (C02_innerprod_kruskal_any) and composed by hand with the "
-    "operand's proved ttv; its executable form is compared with pyttb for dense and sparse operands",
-    "request resolution of sptensor.scale / sptensor.collapse (dims=None) / contract argument checks (ttv and ttm of the dense, sparse and Tucker classes, Kruskal ttv, "
-    "dense collapse / scale / ttt are stated over the GENERATED tt_dimscheck / gather_wrap_dims); ttsv 'version 1' (= tensor.ttv with N copies of the vector: covered by C02_ttv_dense_req) is "
-    "not restated; Tucker mttkrp / ttv with a Kruskal or factor-list operand: proved (C02_mttkrp_tucker_kruskal_gen, C02_ttv_tucker_req_caller)",
+    "reconstruct with a 2-d sample MATRIX (sample.dot(factor) branch; index-list samples are proved: C02_reconstruct_tucker); sumtensor operations are proved part "
+    "by part (C02_sum_innerprod_parts_dense / _sparse / _kruskal / _tucker, C02_sum_mttkrp_parts, C02_sum_ttv_parts) up to the association order of the additions",
+    "the KIND of the result container (scalar / ndarray / tensor / sptensor / sumtensor / ktensor / ttensor) is pinned by generated cases only; the 50% switch of "
+    "sptensor.ttv / contract is proved to depend on the denoted array alone (C02_switch_ttv_sparse, C02_switch_contract_sparse, C02_switch_repr_indep) and both sides "
+    "denote the same array (C02_sparse_switch); sptensor.collapse with a reducer other than sum (reduces the STORED values only: outside the claim, DESIGN §C02)",
+    "Kruskal mask: proved by C08 (Props/C08b.v C08_mask: ktensor.mask's accumulation loop = the denoted array at every listed subscript), not duplicated here",
+    "the row-count tests of the four mttkrp methods (hand-written in Model/C02HarnessW5.v zmttkrp_accepts on top of the GENERATED get_mttkrp_factors; compared with "
+    "pyttb on every mttkrp case and on the rejection stream, no theorem)",
+    "ttsv 'version 1' (= tensor.ttv with N copies of the vector: covered by C02_ttv_dense_req) is not restated; sptensor.scale with an ill-sized NDARRAY factor on a "
+    "receiver without stored entry is answered by pyttb (d89c921 tests tensor / sptensor factors only): modelled as-is (impl_scale_sp_req, flag nd), not generated "
+    "(rejection is C19's clause; reported to C19)",
     "mixed-dtype factor lists (int64 / float32 / float64), memory layouts and construction histories of operands (C-ordered data of a tensor grown by assignment, "
     "strided / transposed views, re-assigned factor matrices, cores kept by reference): the theorems speak about values; dtype promotion, layout and history are "
     "covered by generated inputs only",
@@ -72,6 +87,9 @@ ASSUMPTIONS = [
     "tt_dimscheck / gather_wrap_dims / get_mttkrp_factors are the texts translated into Gen/GenUtils.v / Gen/GenUtils2.v / Gen/GenUtils3.v on this run (translator "
     "trusted; re-checked by the C17 correspondence stream); every mttkrp case also evaluates the generated get_mttkrp_factors in Coq and compares it with the hand model",
     "C02_mttkrps_dense imports C12's byte-level theorem (Proofs/C12Reshape.v C12_mttkrps_bytes_py) and C09's bridge lemma (Proofs/C09Holders.v spec_mttkrp_den)",
+    "C02_mttkrp_dense_genkr (Props/C02w5d.v) imports C12's bridge between the GENERATED khatrirao and kr_rev (Proofs/C12KrTie.v khatrirao_generated_kr_rev); "
+    "the argument checks of Model/C02SpReq.v (shape test of sptensor.scale, range / size / distinctness tests of contract) are hand transliterations compared with "
+    "pyttb on every case and on the rejection stream; sumtensor's additions are modelled up to association order",
 ]
 
 SHAPES_Q = [[3], [1], [2, 3], [3, 2], [1, 3], [3, 3], [2, 3, 4], [4, 3, 2], [2, 1, 3], [2, 2, 2], [3, 2, 1, 4], [2, 3, 2, 2]]
@@ -331,6 +349,13 @@ def gen_cases(rng, tier):
                 rng.shuffle(modes)
             samples = [[rng.randrange(shp[m]) for _ in range(rng.randint(1, 3))] for m in modes]
             cases.append(Case("reconstruct", {"X": T, "modes": modes, "samples": samples}, nontriv(T)))
+            # a mode named TWICE (the later sample wins), an EMPTY sample (the mode is kept whole), repeated rows
+            m2 = rng.randrange(N)
+            modes2 = modes + [m2]
+            samples2 = [list(s_) for s_ in samples] + [[rng.randrange(shp[m2]) for _ in range(rng.randint(1, 4))]]
+            if rng.random() < 0.6:
+                samples2[rng.randrange(len(samples2))] = []
+            cases.append(Case("reconstruct", {"X": T, "modes": modes2, "samples": samples2}, nontriv(T)))
     # ---- regression inputs of repaired findings (ordinary cases: no attribution).  C02-N1 (5f8b038): dense / sparse holder, sparse mask without entry
     for rep_, org_ in (("dense", None), ("dense", "shape_only"), ("sparse", None), ("sparse", "shape_only")):
         Xr = X_dense(*REGRESSION_N1) if rep_ == "dense" else X_sparse(REGRESSION_N1[0], *tgen.dense_to_sparse(*REGRESSION_N1))
@@ -382,6 +407,35 @@ def gen_cases(rng, tier):
                     fshape = [want[0] + rng.choice([1, 2])]
                     cases.append(Case("scale", {"X": Xh, "dims": d, "fshape": fshape, "fdata": tgen.rand_dense(rng, fshape, 1.0, 1, 3),
                                                 "fkind": "ndarray", "rej": True}, True))
+        # mttkrp: the SKIPPED factor is never looked at (any row / column count: an ordinary, accepted request); a non-skipped factor with a wrong row
+        # count or a different column count, a short list, a mode outside [0, N) must be rejected by every holder class
+        if N >= 2:
+            hs = [fam["dense"], fam["sparse"], rand_k(rng, shp), rand_t(rng, shp), rand_sum(rng, shp)]
+            for Xh in hs:
+                n = rng.randrange(N)
+                R = 2
+                good = [rand_matrix(rng, d, R) for d in shp]
+                U = [list(map(list, f)) for f in good]
+                U[n] = rand_matrix(rng, shp[n] + rng.choice([1, 2]), R if n == 0 else R + 1)
+                cases.append(Case("mttkrp", {"X": Xh, "n": n, "U": {"factors": U, "weights": None}}, nontriv(Xh)))
+                m = rng.choice([q for q in range(N) if q != n])
+                bads = []
+                for rows, cols in ((shp[m] + 1, R), (shp[m] - 1, R), (shp[m], R + 1)):
+                    if rows >= 1 and (cols == R or N >= 3):      # a "different" column count needs a second non-skipped factor
+                        B = [list(map(list, f)) for f in good]
+                        B[m] = rand_matrix(rng, rows, cols)
+                        bads.append((B, n))
+                # ZERO-column matrices with one wrong row count: the component loops never run, only the explicit row test can reject (dc71f18)
+                Z0 = [[[] for _ in range(d)] for d in shp]
+                Z0[m] = [[] for _ in range(shp[m] + 1)]
+                bads.insert(1, (Z0, n))
+                bads += [(good[:-1], min(n, N - 2)), (good, N), (good, -1), (good + [rand_matrix(rng, 2, R)], n)]
+                # the factor with one row TOO MANY is always generated (the kernels never touch the extra row: only the explicit test rejects it)
+                for B, nn in (bads if big else bads[:2] + rng.sample(bads[2:], 2)):
+                    cases.append(Case("mttkrp", {"X": Xh, "n": nn, "U": {"factors": B, "weights": None}, "rej": True}, True))
+                if N >= 2 and Xh["rep"] in ("dense", "sparse"):      # Kruskal operand of another shape
+                    Kbad = rand_k(rng, [d + (1 if q == m else 0) for q, d in enumerate(shp)])
+                    cases.append(Case("mttkrp", {"X": Xh, "n": n, "U": {"factors": Kbad["factors"], "weights": Kbad["weights"]}, "rej": True}, True))
     # ---- degenerate sparse operands in EVERY sparse product stream: no stored entry (three origins) / exactly one stored entry
     #      (two origins); multiplicands in varying memory layouts
     for shp in shapes:
@@ -609,11 +663,13 @@ def gen_cases(rng, tier):
             b["hist"] = rng.choice(["entry", "block"])
         if math.prod(s1) * math.prod(s2) <= 72:
             cases.append(Case("ttt", {"X": a, "Y": b, "sd": None, "od": None}, True))
-        # all matchings of equally sized mode lists
+        # all matchings of equally sized mode lists (equally shaped operands with repeated mode sizes: partial contractions with permuted
+        # pairings exhaustively too)
+        rep_sizes = s1 == s2 and len(set(s1)) < len(s1)
         for r in range(1, min(len(s1), len(s2)) + 1):
             for sd in itertools.permutations(range(len(s1)), r):
                 for od in itertools.permutations(range(len(s2)), r):
-                    if all(s1[x] == s2[y] for x, y in zip(sd, od)) and (big or r == len(s1) == len(s2) or rng.random() < 0.6):
+                    if all(s1[x] == s2[y] for x, y in zip(sd, od)) and (big or r == len(s1) == len(s2) or rep_sizes or rng.random() < 0.6):
                         cases.append(Case("ttt", {"X": a, "Y": b, "sd": list(sd), "od": list(od)}, True))
     # ---- ttsv: cubical tensors, same vector in all modes after skip_dim
     for shp in ([2, 2], [3, 3], [2, 2, 2], [3, 3, 3], [2, 2, 2, 2]):
@@ -674,7 +730,17 @@ def run_impl(c):
             return {"ok": obs_any(np, ttb, r)}
         if c.op == "innerprod":
             Y = mk_obj(ttb, np, a["Y"])
-            return {"ok": obs_any(np, ttb, X.innerprod(Y))}
+            out = {"ok": obs_any(np, ttb, X.innerprod(Y))}
+            if isinstance(X, ttb.tensor) and isinstance(Y, ttb.tensor):
+                # the operands' RAW data arrays: memory order + buffer in memory order (a tensor grown by assignment is C-ordered)
+                lay = []
+                for T_ in (X, Y):
+                    d_ = T_.data
+                    lo = "F" if d_.flags.f_contiguous else ("C" if d_.flags.c_contiguous else None)
+                    lay.append([lo, [tgen.exact(v_) for v_ in d_.ravel(order="K")] if lo else None])
+                if all(l_[0] for l_ in lay):
+                    out["lay"] = lay
+            return out
         if c.op == "norm":
             return {"ok": {"k": "float", "v": str(Fraction(float(X.norm())))}}
         if c.op == "collapse":
@@ -792,6 +858,14 @@ def _dlit(ob):
     return tgen.gdense(ob["shape"], ob["data"]) if ob["k"] in ("dense", "array") else tgen.gdense([], [ob["v"]])
 
 
+def _recon_look(a):
+    """mode -> rows actually used by reconstruct: a later (sample, mode) pair overrides an earlier one, an empty sample keeps the mode whole"""
+    look = {}
+    for m, s_ in zip(a["modes"], a["samples"]):
+        look[m] = list(s_)
+    return {m: s_ for m, s_ in look.items() if s_}
+
+
 def _glit(x):
     """operand literal in its own class (dense / sparse / Kruskal / Tucker)"""
     r = x["rep"]
@@ -810,6 +884,15 @@ def _gparts(x):
     """the parts of a sumtensor literal as a list of Model/C02SumParts.v `part`s"""
     con = {"dense": "PD", "sparse": "PS", "k": "PK", "t": "PT"}
     return "[" + "; ".join(f"({con[p['rep']]} {_glit(p)})" for p in x["parts"]) + "]"
+
+
+def _mttkrp_accepts(c):
+    """Gallina bool: mttkrp AS CALLED accepts the operand (GENERATED get_mttkrp_factors + the row-count test of the non-skipped factors)"""
+    a = c.args
+    U = a["U"]
+    lamo = "None" if U["weights"] is None else f"(Some {gzlist(U['weights'])})"
+    Us = "[" + "; ".join(gmat(f) for f in U["factors"]) + "]"
+    return f"(zmttkrp_accepts {gnlist(shape_of(a['X']))} {lamo} {Us} {gz(a['n'])})"
 
 
 def _req_expr(c):
@@ -832,7 +915,11 @@ def _req_expr(c):
 def coq_check(c, o):
     a = c.args
     if a.get("rej"):            # rejection stream: the request is outside the operation's domain: pyttb must raise AND the request-level model must say Err
-        return f"zres_err {_req_expr(c)}" if "exc" in o else "false"
+        if "exc" not in o:
+            return "false"
+        if c.op == "mttkrp":
+            return f"negb {_mttkrp_accepts(c)}"
+        return f"zres_err {_req_expr(c)}"
     if "exc" in o:
         return "false"          # every other request generated here is admissible
     ob = o["ok"]
@@ -859,6 +946,9 @@ def coq_check(c, o):
             order = sorted(range(len(dims)), key=lambda j: dims[j])
             sd, sv = [dims[j] for j in order], [vs[j] for j in order]
             e += " && " + gmatch(rs, f"(zimpl_ttv_sp {tgen.gsparse(X['shape'], X['subs'], X['vals'])} {gnlist(sd)} {gvecs(sv)})", ob)
+            if rs and ob["k"] in ("dense", "sparse"):     # the 50% switch on the KERNEL's own result (Model/C02Switch.v, C02_switch_ttv_sparse)
+                e += (f" && Bool.eqb (zdensify {gnlist(rs)} (zimpl_ttv_sp {tgen.gsparse(X['shape'], X['subs'], X['vals'])} {gnlist(sd)} {gvecs(sv)})) "
+                      f"{'true' if ob['k'] == 'dense' else 'false'}")
             # the raw request as written by the caller, resolved by the GENERATED tt_dimscheck (Proofs/C02ReqGen.v, C02_ttv_sparse_req_caller)
             rq = (f"(zttv_req_sp {tgen.gsparse(X['shape'], X['subs'], X['vals'])} {gopt(a['dims'], gzlist)} "
                   f"{gopt(a['excl'], gzlist)} {gvecs(a['vecs'])})")
@@ -961,10 +1051,13 @@ def coq_check(c, o):
             UsH = Us if U["weights"] is None else f"(zget_mttkrp_factors_k {lam} {Us} {a['n']})"
             lamo = "None" if U["weights"] is None else f"(Some {lam})"
             UsK = f"(zgen_mttkrp_factors {lamo} {Us} {a['n']})"
-            e += f" && zgen_mttkrp_accepts {lamo} {Us} {a['n']} && zfactors_eqb {UsK} {UsH}"
+            e += f" && zgen_mttkrp_accepts {lamo} {Us} {a['n']} && zfactors_eqb {UsK} {UsH} && {_mttkrp_accepts(c)}"
             if X["rep"] == "dense" and ob["k"] == "array" and obs_ints(ob):
                 e += (f" && dense_eqb (zimpl_mttkrp_dense {tgen.gdense(X['shape'], X['data'])} "
                       f"{UsK} {a['n']} {R}) {tgen.gdense(ob['shape'], ob['data'])}")
+                # the same kernel with its Khatri-Rao products computed by the GENERATED pyttb.khatrirao (Model/C02MttkrpGen.v, C02_mttkrp_dense_genkr)
+                e += (f" && zres_is (zmttkrp_dense_genkr {tgen.gdense(X['shape'], X['data'])} {UsK} {a['n']} {R}) "
+                      f"{tgen.gdense(ob['shape'], ob['data'])}")
             if X["rep"] in ("sparse", "k"):
                 lit = (f"zimpl_mttkrp_sp {tgen.gsparse(X['shape'], X['subs'], X['vals'])}" if X["rep"] == "sparse"
                        else f"zimpl_mttkrp_k {tgen.gktensor(X['weights'], X['factors'])}")
@@ -1014,8 +1107,8 @@ def coq_check(c, o):
                 e += f" && (zimpl_innerprod_k_dense {tgen.gktensor(Kk['weights'], Kk['factors'])} {tgen.gdense(Oo['shape'], Oo['data'])} =? {gz(ob['v'])})%Z"
             else:
                 e += f" && (zimpl_innerprod_k_sp {tgen.gktensor(Kk['weights'], Kk['factors'])} {tgen.gsparse(Oo['shape'], Oo['subs'], Oo['vals'])} =? {gz(ob['v'])})%Z"
-        if reps[0] == "sum" and reps[1] in ("dense", "sparse"):     # sumtensor.innerprod part by part (C02_sum_innerprod_parts_dense / _sparse)
-            fn = "zinnerprod_sum_dense" if reps[1] == "dense" else "zinnerprod_sum_sp"
+        if reps[0] == "sum":     # sumtensor.innerprod part by part (C02_sum_innerprod_parts_dense / _sparse / _kruskal / _tucker)
+            fn = {"dense": "zinnerprod_sum_dense", "sparse": "zinnerprod_sum_sp", "k": "zinnerprod_sum_k", "t": "zinnerprod_sum_t"}[reps[1]]
             e += f" && ({fn} {_gparts(X)} {_glit(Y)} =? {gz(ob['v'])})%Z"
         if "k" in reps and reps != ("k", "k") and "sum" not in reps:
             # ktensor.innerprod(tensor | sptensor | ttensor), ring-generic loop model (C02_innerprod_kruskal_dense / _sparse / _tucker)
@@ -1027,6 +1120,14 @@ def coq_check(c, o):
         if X["rep"] == "dense" and a["Y"]["rep"] == "dense":
             e += (f" && (zimpl_innerprod_dense {tgen.gdense(X['shape'], X['data'])} "
                   f"{tgen.gdense(a['Y']['shape'], a['Y']['data'])} =? {gz(ob['v'])})%Z")
+            if o.get("lay") and all(tgen.all_int(l_[1]) for l_ in o["lay"]):
+                # the raw arrays (memory order, buffer) of the constructed operands: they denote the operand literals, and the logical F-order
+                # flattening + dot of Model/C02Layout.v (C02_innerprod_dense_layout) gives pyttb's number
+                (lx, bx), (ly, by) = o["lay"]
+                LX = f"(zmkL {gnlist(shp)} L{lx} {gzlist(bx)})"
+                LY = f"(zmkL {gnlist(shp)} L{ly} {gzlist(by)})"
+                e += (f" && fun_matches {gnlist(shp)} (den_l 0%Z {LX}) {dX} && fun_matches {gnlist(shp)} (den_l 0%Z {LY}) {gden(a['Y'])}"
+                      f" && (zinnerprod_l {LX} {LY} =? {gz(ob['v'])})%Z")
         return e
     if c.op == "norm":
         q = gq(Fraction(ob["v"]))
@@ -1065,6 +1166,9 @@ def coq_check(c, o):
             e += f" && zres_is {_req_expr(c)} {_dlit(ob)}"
         if X["rep"] == "sparse":
             e += " && " + gmatch(rs, f"(zimpl_contract_sp {tgen.gsparse(X['shape'], X['subs'], X['vals'])} {a['i1']} {a['i2']})", ob)
+            if rs and ob["k"] in ("dense", "sparse"):     # the 50% switch on the kernel's own result (C02_switch_contract_sparse)
+                e += (f" && Bool.eqb (zdensify {gnlist(rs)} (zimpl_contract_sp {tgen.gsparse(X['shape'], X['subs'], X['vals'])} {a['i1']} {a['i2']})) "
+                      f"{'true' if ob['k'] == 'dense' else 'false'}")
             rq = _req_expr(c)                                # C02_contract_sparse_req
             e += f" && zres_accepts {rq} && " + gmatch(rs, f"(zmemo {gnlist(rs)} (zres_fun {rq}))", ob)
         return e
@@ -1109,15 +1213,17 @@ def coq_check(c, o):
     if c.op == "reconstruct":
         sel = ["None"] * N
         rs = list(shp)
-        for m, s in zip(a["modes"], a["samples"]):
+        look = _recon_look(a)
+        for m, s in look.items():
             sel[m] = f"(Some {gnlist(s)})"
             rs[m] = len(s)
         e = gmatch(rs, f"(zsample [{'; '.join(sel)}] {dX})", ob)
         if X["rep"] == "t" and ob["k"] == "dense" and obs_ints(ob):
-            # ttensor(core, new_u).full() with new_u[m] = the sampled rows of factor m (row selection done here; full() is Model/C02TuckerFull.v)
-            look = {m: s_ for m, s_ in zip(a["modes"], a["samples"])}
-            newf = [[X["factors"][m][r_] for r_ in look[m]] if m in look else X["factors"][m] for m in range(N)]
-            e += f" && dense_eqb (zimpl_full_t {tgen.gttensor(X['core_shape'], X['core_data'], newf)}) {tgen.gdense(ob['shape'], ob['data'])}"
+            # ttensor.reconstruct AS CALLED (Model/C02Reconstruct.v, C02_reconstruct_tucker): the caller's (samples, modes) lists; the model
+            # fills full_samples, selects the rows and runs full()
+            smp = "[" + "; ".join(gnlist(s_) for s_ in a["samples"]) + "]"
+            e += (f" && dense_eqb (zimpl_reconstruct {tgen.gttensor(X['core_shape'], X['core_data'], X['factors'])} {gnlist(a['modes'])} {smp}) "
+                  f"{tgen.gdense(ob['shape'], ob['data'])}")
         return e
     if c.op == "ttt":
         Y = a["Y"]
@@ -1223,7 +1329,7 @@ def expected(c, o=None):
         return None, [F[tuple(s)] for s in o["ok"]["wsubs"]]
     if c.op == "reconstruct":
         rs = list(shp)
-        look = {m: s for m, s in zip(a["modes"], a["samples"])}
+        look = _recon_look(a)
         for m, s in look.items():
             rs[m] = len(s)
         return rs, [F[tuple(look[m][x] if m in look else x for m, x in enumerate(i))] for i in all_subs(rs)]
